@@ -271,7 +271,7 @@ func genResultCase(t *rapid.T) resultCase {
 }
 
 func TestC05_history(t *testing.T) {
-	runRapid(t, "C05/history", 30000, genResultCase, func(c resultCase) error {
+	runRapid(t, "C05/history", 100000, genResultCase, func(c resultCase) error {
 		stats.Sample("C05/history", c)
 		return checkC05(c)
 	})
